@@ -21,6 +21,8 @@ def exempt : List (String × String × String) := [
   ("modulefinder", "find_gitignores", "memoised pure function of its arguments"),
   ("modulefinder", "get_search_dirs", "memoised per interpreter executable"),
   ("report", "reporter_classes", "registry filled at import time"),
+  ("semanal", "SemanticAnalyzer.wrapped_coro_return_types",
+   "class-level dict shared by all analyzers, keyed by FuncDef objects (identity hash) that the dict itself keeps alive: an entry can only be read back for the very node it was written for, never by another build; a leak, not a dependence"),
   ("util", "_AVAILABLE_THREADS", "memoised CPU count"),
   ("util", "fields_cache", "memoised dataclass field names per class")
 ]
